@@ -15,8 +15,9 @@
    merges the runtime branch at a/b into the file's branch at a/b (the union again) and changes nothing off that path.
    Root metadata follow the same rule per entry name (append: file entries win; append-over: runtime entries replace).
    (7) save(path, node, mode = append) for an inner node: merged at its own path, or written whole when it is one beyond
-   the file.  PARTIAL: an inner node as the data together with an emdpath, and append-over of an inner node / with an
-   emdpath, are tied by correspondence + the reference-model oracle. *)
+   the file.  (8) save(path, node, mode = append-over) for an inner node: replaced in its parent's group.  PARTIAL: an
+   inner node as the data together with an emdpath, and append-over with an emdpath, are tied by correspondence + the
+   reference-model oracle. *)
 From Emd Require Import Base.Prelude Model.H5 Model.Emd Model.Reader Generated.Tables Proofs.PTree Proofs.PFault Proofs.PAppend Proofs.PRead Proofs.PUnion Proofs.PUnionAO Proofs.PTarget Proofs.PAfter.
 
 (* merge m n: m's own content; a child of n called like a child of m is merged into it, recursively; the other children
@@ -167,6 +168,22 @@ Theorem C09_inner_node_one_beyond_the_file_is_written_whole :
                (forall p, is_pref p (rname m :: q) = false -> is_pref (rname m :: q) p = false -> lookup f' p = lookup (whole_file c0 m) p).
 Proof. exact inner_node_one_beyond_the_file_is_written_whole. Qed.
 Print Assumptions C09_inner_node_one_beyond_the_file_is_written_whole.
+
+(* save(path, node, mode = append-over) for an inner node the file has: in its parent's group the node is replaced (own
+   content = the runtime node's, file-only children kept below it, runtime children merged in with replacement) and every
+   sibling is untouched; aom (a one-child parent) ks = ks without the node ++ [the replaced node] *)
+Theorem C09_inner_node_appendover_replaces_the_node_in_its_parent :
+  forall c0 m root q x pk km data md,
+    In md appendovermode ->
+    rcls m = CRoot -> rname root = rname m -> rmds root = [] -> ok_tree m ->
+    rwalk m q = Some pk -> rwalk m (q ++ [x]) = Some km ->
+    rwalk root (q ++ [x]) = Some data -> rname data = x ->
+    compat_ao (RN CNode "" 0%Z 0 [] [data]) (shallow_links pk) (rkids pk) ->
+    exists f', append_existing root (q ++ [x]) (WA md (Some true) None) md (whole_file c0 m) = Ok f' /\
+               lookup f' (rname m :: q) = Some (G (node_tags pk) (shallow_links pk ++ enc_kids (aom (RN CNode "" 0%Z 0 [] [data]) (rkids pk)))) /\
+               (forall p, is_pref p (rname m :: q) = false -> is_pref (rname m :: q) p = false -> lookup f' p = lookup (whole_file c0 m) p).
+Proof. exact inner_node_appendover. Qed.
+Print Assumptions C09_inner_node_appendover_replaces_the_node_in_its_parent.
 
 Theorem C09_append_leaves_existing_nodes_unchanged :
   forall n g g', append_branch false n g = Ok g' -> ext g g'.
